@@ -566,6 +566,14 @@ pub fn scenarios() -> Vec<Scenario>
 				files: vec![("m0.pn".into(), main), ("m1.pn".into(), lib.clone())],
 				expect: Expect::IfAccepted("sum=8 sizes 12 12\n".to_string()),
 			});
+			// the same without a literal of the structure in the importer: only the two sizes
+			let main = format!("import \"m1.pn\";\n\n{}fn main() -> u8\n{{\n\tprint!(\"sizes \", |:S|, \" \", size_in_lib(), \"\\n\");\n\treturn: 0\n}}\n", if own { "const N: usize = 4;\n" } else { "" });
+			out.push(Scenario {
+				name: format!("public structure sized by a private constant, sizes only{}", if own { ", importer has a constant of the same name" } else { "" }),
+				class: "importer names captured:array length in a public structure",
+				files: vec![("m0.pn".into(), main), ("m1.pn".into(), lib.clone())],
+				expect: Expect::IfAccepted("sizes 12 12\n".to_string()),
+			});
 		}
 		// a structure of the importer with the name of a private structure used in a public signature
 		let lib = "struct Inner\n{\n\tv: i32,\n}\npub struct Outer\n{\n\tinner: Inner,\n\tw: i32,\n}\npub fn outer_size() -> usize\n{\n\treturn: |:Outer|\n}\n".to_string();
